@@ -49,13 +49,13 @@ Proof. exact restart_persisted. Qed.
     ([op_in_scope ORestart = True]); the general soundness theorem read with ORestart among the
     operations, and ORestart is exactly [restart] *)
 Theorem C07_model_sound_across_restarts :
-  forall p ops i n r z, wf_model p -> Forall op_in_scope ops ->
+  forall p ops i n r z, wf_model_g p -> Forall op_in_scope ops ->
     model_sessions_fuelled p ops i ->
     nth_error ops i = Some (OQuery n) ->
     nth_error (run_history p init_state ops) i = Some r ->
     r_out r = RValue z ->
     MdlSpec p (inputs_after (firstn i ops)) n z.
-Proof. exact MdlSound.model_sound. Qed.
+Proof. exact MdlSound.model_sound_g. Qed.
 Theorem C07_model_restart_is_an_operation : forall p s,
   op_in_scope ORestart /\ step p s ORestart = (restart (set_log s []), mkRes RUnit [] None).
 Proof. intros p s. split; [exact I | reflexivity]. Qed.
